@@ -24,6 +24,7 @@ def gen_texts(ctx):
     rnd = random.Random(ctx.seed)
     q = ctx.tier == "quick"
     texts = [G.dec(l) for l in C.load_corpus("text")]
+    texts += G.special_texts()
     texts += G.random_texts(rnd, 30000 if q else 400000, maxlen=25)
     texts += [d["text"] for d in GL.gen_sequences(ctx.seed, 5000 if q else 60000)]
     texts += [d["text"] for d in GL.gen_malformed(ctx.seed, 3000 if q else 30000)]
